@@ -33,7 +33,19 @@ impl SO2State {
     /// ```
     pub fn new(val: f64) -> Self {
         SO2State {
-            value: (val + PI).rem_euclid(2.0 * PI) - PI,
+            value: Self::wrap(val),
+        }
+    }
+
+    /// Wraps an angle into `[-PI, PI)`. `rem_euclid` may round up to the modulus itself for
+    /// inputs a rounding error below a multiple of it (e.g. just below `-PI`), which would yield
+    /// `+PI`; that case is mapped to the equivalent `-PI` so that wrapping is idempotent.
+    fn wrap(val: f64) -> f64 {
+        let shifted = (val + PI).rem_euclid(2.0 * PI);
+        if shifted >= 2.0 * PI {
+            -PI
+        } else {
+            shifted - PI
         }
     }
 
@@ -54,7 +66,7 @@ impl SO2State {
     /// ```
     pub fn normalise(&mut self) -> Self {
         SO2State {
-            value: (self.value + PI).rem_euclid(2.0 * PI) - PI,
+            value: Self::wrap(self.value),
         }
     }
 }
